@@ -28,8 +28,8 @@ Regexes == { Cat([t |-> "bol"], Cat(Chr(97), Chr(98))), Cat(Chr(98), [t |-> "eol
              Cat([t |-> "bol"], Cat(Chr(97), Cat(Chr(92), Cat(Chr(47), [t |-> "eol"])))),   \* ^a\/$ : backslash then slash
              [t |-> "star", a |-> Chr(120)] }
 VARIABLES k, x, lay
-\* layouts: 0 one line, 1 one item per line with // comments (LF), 2 /* */ comments, 3 blanks around, 4 / 5 as 1 with CRLF / CR line ends
-Init == \/ (k = "enum" /\ x \in Lists /\ lay \in 0..5)
+\* layouts: 0 one line, 1 one item per line with // comments (LF), 2 /* */ comments, 3 blanks around, 4 / 5 as 1 with CRLF / CR line ends, 6 as 1 with empty comments
+Init == \/ (k = "enum" /\ x \in Lists /\ lay \in 0..6)
         \/ (k = "regex" /\ x \in Regexes /\ lay = 0)
 Next == UNCHANGED <<k, x, lay>>
 Spec == Init /\ [][Next]_<<k, x, lay>>
